@@ -11,7 +11,7 @@ def M (α : Type) := State → α × State
 
 instance : Monad M where
   pure a := fun s => (a, s)
-  bind m f := fun s => let (a, s') := m s; f a s'
+  bind m f := fun s => let r := m s; f r.1 r.2
 
 def getS : M State := fun s => (s, s)
 def modS (f : State → State) : M Unit := fun s => ((), f s)
